@@ -480,15 +480,40 @@ func ruleHTMLToChild(r *core.Reporter) {
 			ea = c
 		}
 	})
-	if ac == nil || ea == nil {
-		r.Violated("postprocessItem/assets-to-children", fnPos(p, pi), "postprocessItem no longer turns extracted assets into children (extractAssets=%v AddChild=%v)", ea != nil, ac != nil)
-	} else {
-		var assets ssa.Value
+	var assets ssa.Value
+	if ea != nil {
 		for _, rr := range ir.Referrers(ea) {
 			if e, ok := rr.(*ssa.Extract); ok && e.Index == 0 {
 				assets = e
 			}
 		}
+	}
+	// the loop may live in a helper that postprocessItem hands the asset list to
+	if ac == nil && assets != nil {
+		allInstrs(pi, func(in ssa.Instruction) {
+			c, ok := in.(*ssa.Call)
+			if !ok {
+				return
+			}
+			h := ir.CalleeOf(c.Common())
+			if h == nil || !core.InModule(h) || h.Blocks == nil {
+				return
+			}
+			for k, a := range c.Call.Args {
+				if k < len(h.Params) && ir.SameValue(a, assets) {
+					for i, s := range sites {
+						if owners[i] == h {
+							ac, pi, assets = s, h, h.Params[k]
+							r.Analysed(h)
+						}
+					}
+				}
+			}
+		})
+	}
+	if ac == nil || ea == nil {
+		r.Violated("postprocessItem/assets-to-children", fnPos(p, pi), "postprocessItem no longer turns extracted assets into children (extractAssets=%v AddChild=%v)", ea != nil, ac != nil)
+	} else {
 		// the child is NewItem(…, assets[i] (or its reddit rewrite), "")
 		child, okc := ac.Call.Args[1].(*ssa.Call)
 		okChild := okc && ir.IsCallTo(child, pkgModels+".NewItem")
